@@ -11,12 +11,6 @@ def in_domain(c):
     if "ast" not in c:
         return True
     for n in walk(c["ast"]["body"]):
-        if n["kind"] == "cmd":
-            # known finding F11: parenthesised arguments of a documented generic command
-            if n.get("doc") is not None and any(isinstance(a, list) for a in n["args"]):
-                return False
-            if n["name"].lower() == "generic_command":
-                return False
         if n.get("rawargs") is not None:
             return False          # deliberately malformed arity (outside "well-formed modules")
     return True
@@ -30,7 +24,15 @@ def run(rep, model, tier, seed, broken=()):
                  "doccomments; each node independently documented; names re-cased; random trivia and "
                  "annotation comments); projection = every entry (kind, order, rendering with doc blanked); "
                  "non-trivial = >= 2 entries; distinct by file bytes")
+    import oracle
+    oracle.c02_generic_oracle(rep, model, core.rng_for(seed, 'C02', 'oracle'), 120 if tier == 'quick' else 4000,
+                              pinned=[oracle.DOC + 'my_cmd(a (b c) d)\n', oracle.DOC + 'generic_command(a)\n'])
+    oracle.c02_undocumented_generic_oracle(rep, ['message', 'generic_command', 'cmake_parse_argument', 'documented_command'])
     pipe.crosscheck(rep)
 
 
-replay = std_replay
+def replay(obj):
+    if obj.get('oracle'):
+        import oracle
+        return oracle.replay(obj)
+    return std_replay(obj)
